@@ -69,9 +69,12 @@ def date(
     environment: Environment,
 ) -> str:
     """Return a string representation of _dat_ using format string _fmt_."""
-    if isinstance(dat, (datetime.datetime, datetime.date)):
+    if isinstance(dat, (datetime.datetime, datetime.date)) or (
+        isinstance(dat, str) and dat in ("now", "today")
+    ):
         # Equal datetimes in different time zones format differently, so
-        # they must not share a cache entry.
+        # they must not share a cache entry. Nor does the current time: it
+        # is not the time of whichever render asked first.
         return _date.__wrapped__(dat, fmt, environment=environment)
     return _date(dat, fmt, environment=environment)
 
